@@ -148,6 +148,20 @@ def gen_C19(g, tier):
     for _ in range(n * 2):
         x = value(g)
         cs.append(Case('t.leaf %s %s' % (dhex(x), enc(fmt(x))), 'cmp', 'number-leaf', check=rt_check('num', [x])))
+    # several values on one stream, white space between them (files with one value per line or column)
+    def multi_ok(vals, line):
+        t = line.split()
+        if not t or t[0] != 'ok' or len(t) != 3: return 'error result ' + line[:100]
+        if t[1] != '0' or t[2] != '0': return 'values written to one stream with white-space separators did not all read back (%s components differ, stream %s)' % (t[1], 'failed' if t[2] != '0' else 'good')
+        return None
+    for _ in range(max(12, n // 3)):
+        k = g.randint(2, 6); items = []
+        for _ in range(k):
+            kind = g.choice(['d3', 's', 'c2', 'e', 'se']); m = {'d3': 3, 's': 4, 'c2': 4, 'e': 2, 'se': 4}[kind]
+            xs = [g.choice([0.0, 1.0, -2.5, 1e300, -1e-300, g.r.uniform(-10, 10), 10 ** g.r.uniform(-30, 30)]) for _ in range(m)]
+            if kind == 'e': xs[1] = abs(xs[1])
+            items.append(kind + ' ' + ' '.join(dhex(x) for x in xs))
+        cs.append(Case('o.c19.multi %d %d %s' % (k, g.randint(0, 4), ' '.join(items)), 'orc', 'several-values-one-stream', check=multi_ok))
     # round trips
     for _ in range(n):
         v, var = value(g), variance(g)
